@@ -10,6 +10,7 @@ import numpy as np
 import common
 import gen
 import refsym
+import replaylib as rl
 
 IMPORTS = ('From SV Require Import Base.Sym Base.Tensor Gen.PhasePerm Model.SymInst Model.Sectors Model.Array Model.Arith Model.Wf Model.Fermi Model.Valid.\n')
 SYMS = ['Z2', 'U1', 'Z2Z2', 'U1U1', 'Z4']
@@ -206,6 +207,20 @@ def classify(m):
     return None
 
 
+def with_replay(m):
+    """the record of a judged array with its `replay` field: a complete, re-executable description of the
+    step that returned it (registers + generator state, or the scenario's start array) and of the returned array"""
+    out = {k: v for k, v in m.items() if k != '_rp'}
+    kind, a, b, y = m['_rp']
+    pr = {'symmetry': m['symmetry'], 'fermionic': m['fermionic'], 'op': m['op']}
+    if kind == 'step':
+        out['replay'] = rl.record('step', {'regs': a['regs'], 'result': y}, {
+            **pr, 'out_index': b, 'step_index': a['index'], 'rng': rl.state_json(a['rng']), 'program_rng': rl.state_json(a['program_rng'])})
+    else:
+        out['replay'] = rl.record('nested_scenario', {'x0': a, 'result': y}, {**pr, 'step': b})
+    return out
+
+
 def run(ctx):
     import symmray as sr
     ok = common.standard_proof_phase(ctx)
@@ -217,13 +232,24 @@ def run(ctx):
     for k in range(n_prog):
         sym = SYMS[k % len(SYMS)]
         ferm = (k // len(SYMS)) % 2 == 1 and sym != 'Z4'
+        prog_rng = rng.getstate()       # a replay runs the whole program again from this generator state
         regs = [gen.rand_array(rng, sr, sym, ndim=rng.randint(1, 3), fermionic=ferm, oddpos=rng.randint(1, 99), maxsize=2,
                                static=(rng.random() < 0.5 and sym in gen.STATIC))]
         if ferm:
             regs[0] = gen.rand_lazy(rng, sr, regs[0])
         steps = rng.randint(2, 7)
         trace = []
+        memo = {}
+
+        def full(y, memo=memo):
+            # complete description of a register for the replay files, taken once, before the array is used as an operand
+            e = memo.get(id(y))
+            if e is None or e[0] is not y:
+                e = memo[id(y)] = (y, rl.describe_safe(y))
+            return e[1]
         for st in range(steps):
+            # what a replay needs to run this very step again: the registers and the generator state random_op draws from
+            step = {'rng': rng.getstate(), 'regs': [full(r) for r in regs], 'program_rng': prog_rng, 'index': st}
             try:
                 res = random_op(rng, sr, regs, sym, ferm)
             except (ValueError, KeyError, NotImplementedError, TypeError, IndexError, ZeroDivisionError, np.linalg.LinAlgError) as e:
@@ -235,7 +261,7 @@ def run(ctx):
             opn = name.split('(')[0].split('[')[0].split(' ')[0]
             opstat[opn] = opstat.get(opn, 0) + 1
             trace.append(name)
-            for y in outs:
+            for j, y in enumerate(outs):
                 if not hasattr(y, 'indices'):
                     continue
                 ctx.count()
@@ -248,7 +274,8 @@ def run(ctx):
                         regs.pop(0)
                 # values of the pending-sign table must be +-1 (checked here; the keys are judged in Coq)
                 if hasattr(y, 'phases') and any(p not in (1, -1) for p in y.phases.values()):
-                    found.append({'op': name, 'symmetry': sym, 'program': list(trace), 'result': describe(y), 'error': 'pending sign not +-1'})
+                    found.append({'op': name, 'symmetry': sym, 'fermionic': ferm, 'program': list(trace), 'result': describe(y),
+                                  'error': 'pending sign not +-1', '_rp': ('step', step, j, y)})
                 try:
                     z = y
                     if any(np.asarray(b).dtype.kind not in 'fc' or np.any(np.asarray(b) != np.round(np.asarray(b))) for b in y.blocks.values()):
@@ -259,7 +286,8 @@ def run(ctx):
                         exprs.append('valid_farray %s %s %s %s' % (sym, ring, gen.gfarray(z, sym, ring), keys))
                     else:
                         exprs.append('valid_array %s %s %s' % (sym, ring, gen.garray(z, sym, ring)))
-                    meta.append({'op': name, 'symmetry': sym, 'fermionic': ferm, 'program': list(trace), 'result': describe(y)})
+                    meta.append({'op': name, 'symmetry': sym, 'fermionic': ferm, 'program': list(trace), 'result': describe(y),
+                                 '_rp': ('step', step, j, y)})
                 except ValueError as e:
                     raised['serialise'] = raised.get('serialise', 0) + 1
             if len(trace) >= 2 and any(ix.subinfo is not None for r in regs for ix in r.indices) or any(
@@ -272,6 +300,7 @@ def run(ctx):
         try:
             x0 = gen.rand_array(rng, sr, sym, ndim=rng.randint(3, 4), fermionic=ferm, oddpos=rng.randint(1, 99), maxsize=2,
                                 keep=rng.choice([1.0, 0.7]))
+            x0_full = rl.describe_safe(x0)
             if x0.blocks:
                 y1 = x0.fuse((0, 1))
                 y2 = y1.fuse((0, 1))
@@ -292,7 +321,8 @@ def run(ctx):
                         exprs.append('valid_farray %s %s %s %s' % (sym, ring, gen.gfarray(y, sym, ring), keys))
                     else:
                         exprs.append('valid_array %s %s %s' % (sym, ring, gen.garray(y, sym, ring)))
-                    meta.append({'op': nm, 'symmetry': sym, 'fermionic': ferm, 'program': ['fuse((0,1))', 'fuse((0,1))', nm], 'result': describe(y)})
+                    meta.append({'op': nm, 'symmetry': sym, 'fermionic': ferm, 'program': ['fuse((0,1))', 'fuse((0,1))', nm], 'result': describe(y),
+                                 '_rp': ('nested_scenario', x0_full, nm, y)})
                 ctx.nontrivial((sym, ferm, 'nested-scenario', str(sorted(x0.blocks))))
         except (ValueError, KeyError, IndexError) as e:
             raised['scenario:' + type(e).__name__] = raised.get('scenario:' + type(e).__name__, 0) + 1
@@ -313,14 +343,15 @@ def run(ctx):
                 continue
             if nviol < 5:
                 ctx.violation('%s returns an invalid array' % meta[i]['op'],
-                              {'oracle': 'Coq Model.Valid.valid_array / valid_farray on the returned array', **meta[i]})
+                              {'oracle': 'Coq Model.Valid.valid_array / valid_farray on the returned array', **with_replay(meta[i]), 'run': rl.run_info(ctx)})
             nviol += 1
         bad_idx = [i for i in bad_idx if not (classify(meta[i]) and any(f.get('family') == classify(meta[i]) for f in kf))]
     for f in found[:3]:
-        ctx.violation(f['error'], f)
+        ctx.violation(f['error'], {**with_replay(f), 'run': rl.run_info(ctx)})
     ctx.broken += tie_broken
     if (not ok or tie_broken) and not (bad_idx or found):
-        ctx.violation('proof obligation or tie of C01 no longer checks', {'broken': ctx.broken}, found_input=False)
+        ctx.violation('proof obligation or tie of C01 no longer checks',
+                      {'broken': ctx.broken, 'replay': rl.record('proof_phase')}, found_input=False)
     ctx.extra['operations_run'] = opstat
     ctx.extra['steps_that_raised'] = raised
     ctx.extra['arrays_judged'] = len(exprs)
@@ -329,7 +360,150 @@ def run(ctx):
                             'non-trivial = program of >=2 steps with a sparse or fused array in a register; distinct by (symmetry, kind, op sequence)')
 
 
+# ------------------------------------------------------------------ replay
+def valid_expr(y, sym, ferm):
+    """the Gallina term run() judges a returned array by"""
+    z = y
+    if any(np.asarray(b).dtype.kind not in 'fc' or np.any(np.asarray(b) != np.round(np.asarray(b))) for b in y.blocks.values()):
+        z = exactify(y)
+    ring = gen.ring_of(z)
+    if ferm:
+        keys = '[' + '; '.join(gen.gsec(s) for s in y.phases) + ']'
+        return 'valid_farray %s %s %s %s' % (sym, ring, gen.gfarray(z, sym, ring), keys)
+    return 'valid_array %s %s %s' % (sym, ring, gen.garray(z, sym, ring))
+
+
+def coq_valid(arrays, sym, ferm):
+    """Model.Valid.valid_array / valid_farray (vm_compute through common.run_cases) on each array:
+    list of True / False / an error string (not serialisable, or the cases file did not evaluate)"""
+    exprs, pos, out = [], [], [None] * len(arrays)
+    for i, y in enumerate(arrays):
+        try:
+            exprs.append(valid_expr(y, sym, ferm)); pos.append(i)
+        except Exception as e:
+            out[i] = 'cannot be written down for the predicate: %s: %s' % (type(e).__name__, e)
+    ctx = rl.DryCtx('C01')
+    bad = common.run_cases(ctx, 'replay', IMPORTS, '', exprs, shard=60)
+    for k, i in enumerate(pos):
+        out[i] = ('the cases file did not evaluate: %s' % str(ctx.extra.get('cases_errors'))[:600]) if bad is None else (k not in bad)
+    return out
+
+
+def rerun_program(sr, rng, sym, ferm, upto):
+    """the program loop of run() again (same draws from the same generator state, same register-file
+    rules), up to and including step `upto`: every array returned, as (step, operation, output index, array)"""
+    regs = [gen.rand_array(rng, sr, sym, ndim=rng.randint(1, 3), fermionic=ferm, oddpos=rng.randint(1, 99), maxsize=2,
+                           static=(rng.random() < 0.5 and sym in gen.STATIC))]
+    if ferm:
+        regs[0] = gen.rand_lazy(rng, sr, regs[0])
+    start = regs[0]
+    steps = rng.randint(2, 7)
+    returned = []
+    for st in range(min(steps, upto + 1)):
+        try:
+            res = random_op(rng, sr, regs, sym, ferm)
+        except (ValueError, KeyError, NotImplementedError, TypeError, IndexError, ZeroDivisionError, np.linalg.LinAlgError) as e:
+            returned.append((st, 'raises %s' % type(e).__name__, None, None))
+            continue
+        if res is None:
+            continue
+        name, outs = res
+        for j, y in enumerate(outs):
+            if not hasattr(y, 'indices'):
+                continue
+            tainted = classify({'op': name, 'fermionic': ferm, 'symmetry': sym, 'result': describe(y)}) is not None
+            if not tainted and y.ndim <= 5 and sum(int(np.prod(np.shape(b))) for b in y.blocks.values()) < 4000:
+                regs.append(y)
+                if len(regs) > 4:
+                    regs.pop(0)
+            returned.append((st, name, j, y))
+    return start, returned
+
+
+def _known(m):
+    fam = classify(m)
+    return fam is not None and any(f.get('family') == fam for f in common.load_known_findings().get('findings', []) if f.get('property') == 'C01')
+
+
+def _invalid(y, verdict, what):
+    fails = []
+    if hasattr(y, 'phases') and any(p not in (1, -1) for p in y.phases.values()):
+        fails.append({'what': '%s: a pending sign is not +-1' % what, 'expected': '+-1', 'got': {str(k): v for k, v in y.phases.items()}})
+    if verdict is not True:
+        fails.append({'what': '%s returns an invalid array' % what, 'expected': 'Model.Valid.valid_(f)array = true',
+                      'got': ('false on %s' % json.dumps(describe(y), default=str)) if verdict is False else verdict})
+    return fails
+
+
+def _rp_step(sr, ins, pr, r):
+    """(a) the recorded program again from its generator state, every returned array judged (decides);
+    (b) for information, the recorded step alone on the recorded registers, and the recorded result"""
+    sym, ferm = pr['symmetry'], pr['fermionic']
+    fails = []
+    if 'program_rng' in pr:
+        start, returned = rerun_program(sr, rl.rng_from_state(pr['program_rng']), sym, ferm, pr['step_index'])
+        print('  program run again from %s' % rl.short(rl.describe_safe(start)))
+        arrays = [y for _, _, _, y in returned if y is not None]
+        verdicts = iter(coq_valid(arrays, sym, ferm))
+        for st, name, j, y in returned:
+            if y is None:
+                print('    step %d: %s' % (st, name))
+                continue
+            v = next(verdicts)
+            known = _known({'op': name, 'fermionic': ferm, 'symmetry': sym, 'result': describe(y)})
+            print('    step %d: %s -> output %d: %s%s' % (st, name, j, 'valid' if v is True else ('INVALID' if v is False else v),
+                                                       ' (pinned known finding, not counted)' if known and v is not True else ''))
+            if not known:
+                fails += _invalid(y, v, 'step %d (%s), output %d' % (st, name, j))
+    # the step on its own
+    try:
+        res = random_op(rl.rng_from_state(pr['rng']), sr, ins['regs'], sym, ferm)
+    except (ValueError, KeyError, NotImplementedError, TypeError, IndexError, ZeroDivisionError, np.linalg.LinAlgError) as e:
+        res = None
+        print('  the recorded step alone on the recorded registers raises now (%s: %s)' % (type(e).__name__, e))
+    alone = None
+    if res is not None and pr['out_index'] < len(res[1]) and hasattr(res[1][pr['out_index']], 'indices'):
+        alone = res[1][pr['out_index']]
+    reg_ok = coq_valid(list(ins['regs']) + [ins['result']] + ([alone] if alone is not None else []), sym, ferm)
+    nreg = len(ins['regs'])
+    print('  recorded registers valid: %s; recorded result valid: %s' % (reg_ok[:nreg], reg_ok[nreg]))
+    if alone is not None:
+        print('  the recorded step alone (%s) on the recorded registers returns a%s array' % (res[0], ' valid' if reg_ok[-1] is True else 'n INVALID'))
+        if 'program_rng' not in pr:
+            fails += _invalid(alone, reg_ok[-1], res[0])
+    return fails
+
+
+def _rp_nested(sr, ins, pr, r):
+    """the fixed scenario: fuse twice (nested), conj / dagger, unfuse twice"""
+    x0 = ins['x0']
+    try:
+        y1 = x0.fuse((0, 1))
+        y2 = y1.fuse((0, 1))
+        outs = [('fuse', y1), ('fuse(nested)', y2)]
+        for nm, f in (('conj', lambda a: a.conj()), ('dagger', lambda a: a.dagger())):
+            if pr['step'] in dict(outs):
+                break
+            z = f(y2)
+            outs.append((nm + ' of nested', z))
+            ax = [i for i, ix in enumerate(z.indices) if ix.subinfo is not None][0]
+            z1 = z.unfuse(ax)
+            outs.append((nm + ' of nested, unfuse', z1))
+            ax1 = [i for i, ix in enumerate(z1.indices) if ix.subinfo is not None][0]
+            outs.append((nm + ' of nested, unfuse twice', z1.unfuse(ax1)))
+    except (ValueError, KeyError, IndexError) as e:
+        print('  the scenario raises now (%s: %s): no array is returned' % (type(e).__name__, e))
+        return []
+    y = dict(outs)[pr['step']]
+    now, rec = coq_valid([y, ins['result']], pr['symmetry'], pr['fermionic'])
+    print('  Coq validity predicate on the array returned now: %s; on the recorded array: %s' % (now, rec))
+    return _invalid(y, now, 'x0.fuse((0,1)).fuse((0,1)) ... ' + pr['step'])
+
+
+ORACLES = {'step': _rp_step, 'nested_scenario': _rp_nested}
+
+
 def replay(path):
-    r = json.load(open(path))
-    print(json.dumps(r, indent=1)[:4000])
-    return 0
+    """re-run the recorded failing case against $SYMMRAY_REPO: 1 = still fails, 0 = passes now"""
+    import sys
+    return rl.dispatch(path, 'C01', ORACLES, sys.modules[__name__])
